@@ -487,7 +487,7 @@ pub fn run(kv: &Args) -> i32 {
         let mut r = rng(seed, "c20-random");
         let mult = if kv.thorough() { 8 } else { 1 };
         for n in 1..=8usize {
-            let per_kind = mult * match n { 1 => 2, 2..=4 => 6, 5 => 3, 6 => 2, _ => 1 };
+            let per_kind = mult * match n { 1 => 2, 2..=3 => 6, 4 => 4, _ => 1 };
             for kind in KINDS.iter() {
                 for _ in 0..per_kind {
                     cases.push((kind.to_string(), n, gen_matrix(&mut r, kind, n)));
